@@ -302,6 +302,7 @@ def run_check(mod, tier: str, seed: int, workers: int, runs_override: Optional[i
     # Warm-up in the parent: one throw-away run per workload so that numba-compiled code, lazy imports and caches
     # are inherited by the forked workers instead of being rebuilt in each of them (results are discarded; every run
     # starts from envseam.pin(), so this does not influence any recorded run).
+    envseam.prime_numba()
     for wi, wl in enumerate(mod.WORKLOADS):
         if (only and wl.name != only) or not per_wl_runs.get(wl.name):
             continue
